@@ -59,74 +59,74 @@ fn trig_info(e: &Engine, arg: u32) -> Option<(String, i128, i128)> {
     }
 }
 
-/// Serialise the current run (one path) as a JSON object.
-fn emit_path(sc: &Scenario, pathno: usize, status: &str, msg: &str) -> (String, usize) {
+/// Serialise the current run (one path): one JSON object for the plain encoding plus one per
+/// cut-with-abstraction group (variant), each with its own declarations.
+fn emit_path(sc: &Scenario, pathno: usize, status: &str, msg: &str) -> (Vec<String>, usize) {
     with(|e| {
-        let mut em = Emit::new(e);
-        let pre: Vec<String> = e.pre.iter().map(|f| em.fm(f)).collect();
-        let pi: Vec<String> = e
-            .path
-            .iter()
-            .map(|(cid, v)| {
-                let s = em.cond_id(*cid);
-                if *v {
-                    s
-                } else {
-                    format!("(not {})", s)
-                }
-            })
-            .collect();
-        let mut goals: Vec<(String, String, String, Vec<String>)> = vec![];
+        let mut outs = vec![];
+        let mut ngoals = 0;
+        let mut variants: Vec<(String, Vec<u32>)> = vec![(String::new(), vec![])];
         if status == "ok" {
-            for (n, g) in &e.goals {
-                let s = em.fm(g);
-                let hy: Vec<String> = e.hyps.iter().filter(|(grp, _)| n.starts_with(grp.as_str())).map(|(_, h)| em.fm(h)).collect();
-                goals.push((n.clone(), "goal".into(), s, hy));
-            }
-            for (n, g) in &e.range_obl {
-                let s = em.fm(g);
-                goals.push((n.clone(), "range".into(), s, vec![]));
-            }
-        } else if status == "panic" {
-            goals.push(("no_panic".into(), "nopanic".into(), "false".into(), vec![]));
+            variants.extend(e.absgroups.iter().cloned());
         }
-        let trig_ax = em.trig_axioms();
-        let mut ax = em.ax.clone();
-        ax.extend(trig_ax);
-        let defs: Vec<String> = em.divisors.iter().map(|d| format!("(not (= {} 0.0))", d)).collect();
-        if status == "ok" && e.check_defined {
-            for (i, d) in defs.iter().enumerate() {
-                goals.push((format!("defined#{}", i), format!("defined:{}", i), d.clone(), vec![]));
+        let groups: Vec<String> = e.absgroups.iter().map(|(g, _)| g.clone()).collect();
+        let in_group = |name: &str| -> Option<String> { groups.iter().filter(|g| name.starts_with(g.as_str())).max_by_key(|g| g.len()).cloned() };
+        for (variant, absn) in variants {
+            let mut em = Emit::new(e);
+            em.abs = absn;
+            let pre: Vec<String> = e.pre.iter().map(|f| em.fm(f)).collect();
+            let pi: Vec<String> = e.path.iter().map(|(cid, v)| { let s = em.cond_id(*cid); if *v { s } else { format!("(not {})", s) } }).collect();
+            let mut goals: Vec<(String, String, String, Vec<String>)> = vec![];
+            if status == "ok" {
+                for (n, g) in &e.goals {
+                    if in_group(n).unwrap_or_default() != variant {
+                        continue;
+                    }
+                    let s = em.fm(g);
+                    let hy: Vec<String> = e.hyps.iter().filter(|(grp, _)| n.starts_with(grp.as_str())).map(|(_, h)| em.fm(h)).collect();
+                    goals.push((n.clone(), "goal".into(), s, hy));
+                }
+                if variant.is_empty() {
+                    for (n, g) in &e.range_obl {
+                        let s = em.fm(g);
+                        goals.push((n.clone(), "range".into(), s, vec![]));
+                    }
+                }
+            } else if status == "panic" {
+                goals.push(("no_panic".into(), "nopanic".into(), "false".into(), vec![]));
             }
-        }
-        let logic = if em.uses_u && em.vars.is_empty() && !em.nonlinear {
-            "QF_UF"
-        } else if em.uses_int || em.uses_u {
-            "ALL"
-        } else if em.nonlinear {
-            "QF_NRA"
-        } else {
-            "QF_LRA"
-        };
-        let trig: Vec<String> = em
-            .trig
-            .iter()
-            .map(|(arg, k)| match trig_info(e, *arg) {
+            let trig_ax = em.trig_axioms();
+            let mut ax = em.ax.clone();
+            ax.extend(trig_ax);
+            let defs: Vec<String> = em.divisors.iter().map(|d| format!("(not (= {} 0.0))", d)).collect();
+            if status == "ok" && e.check_defined && variant.is_empty() {
+                for (i, d) in defs.iter().enumerate() {
+                    goals.push((format!("defined#{}", i), format!("defined:{}", i), d.clone(), vec![]));
+                }
+            }
+            if !variant.is_empty() && goals.is_empty() {
+                continue;
+            }
+            let logic = if em.uses_u && em.vars.is_empty() && !em.nonlinear { "QF_UF" } else if em.uses_int || em.uses_u { "ALL" } else if em.nonlinear { "QF_NRA" } else { "QF_LRA" };
+            let trig: Vec<String> = em.trig.iter().map(|(arg, k)| match trig_info(e, *arg) {
                 Some((v, n, d)) => format!("{{\"k\":{},\"var\":{},\"n\":{},\"d\":{}}}", k, jstr(&v), n, d),
                 None => format!("{{\"k\":{},\"var\":null}}", k),
-            })
-            .collect();
-        let mut o = String::new();
-        write!(o, "{{\"scenario\":{},\"prop\":{},\"path\":{},\"status\":{},\"msg\":{},\"ndec\":{},", jstr(&sc.name), jstr(sc.prop), pathno, jstr(status), jstr(msg), e.path.len()).unwrap();
-        let mut decls = em.decls.clone();
-        if em.uses_u {
-            decls = format!("(declare-sort U 0)\n{}", decls);
+            }).collect();
+            let mut o = String::new();
+            write!(o, "{{\"scenario\":{},\"prop\":{},\"path\":{},\"variant\":{},\"status\":{},\"msg\":{},\"ndec\":{},", jstr(&sc.name), jstr(sc.prop), pathno, jstr(&variant), jstr(status), jstr(msg), e.path.len()).unwrap();
+            let mut decls = em.decls.clone();
+            if em.uses_u {
+                decls = format!("(declare-sort U 0)\n{}", decls);
+            }
+            write!(o, "\"logic\":{},\"decls\":{},\"defs\":{},", jstr(logic), jstr(&decls), jstr(&em.defs)).unwrap();
+            let js = |v: &Vec<String>| jlist(&v.iter().map(|s| jstr(s)).collect::<Vec<_>>());
+            write!(o, "\"ax\":{},\"def\":{},\"pre\":{},\"pi\":{},", js(&ax), js(&defs), js(&pre), js(&pi)).unwrap();
+            let gs: Vec<String> = goals.iter().map(|(n, kind, s, hy)| format!("{{\"name\":{},\"kind\":{},\"smt\":{},\"hyps\":{}}}", jstr(n), jstr(kind), jstr(s), js(hy))).collect();
+            write!(o, "\"goals\":{},\"inputs\":{},\"trig\":{},\"notes\":{}}}", jlist(&gs), js(&em.vars), jlist(&trig), js(&e.notes)).unwrap();
+            ngoals += goals.len();
+            outs.push(o);
         }
-        write!(o, "\"logic\":{},\"decls\":{},\"defs\":{},", jstr(logic), jstr(&decls), jstr(&em.defs)).unwrap();
-        write!(o, "\"ax\":{},\"def\":{},\"pre\":{},\"pi\":{},", jlist(&ax.iter().map(|s| jstr(s)).collect::<Vec<_>>()), jlist(&defs.iter().map(|s| jstr(s)).collect::<Vec<_>>()), jlist(&pre.iter().map(|s| jstr(s)).collect::<Vec<_>>()), jlist(&pi.iter().map(|s| jstr(s)).collect::<Vec<_>>())).unwrap();
-        let gs: Vec<String> = goals.iter().map(|(n, kind, s, hy)| format!("{{\"name\":{},\"kind\":{},\"smt\":{},\"hyps\":{}}}", jstr(n), jstr(kind), jstr(s), jlist(&hy.iter().map(|h| jstr(h)).collect::<Vec<_>>()))).collect();
-        write!(o, "\"goals\":{},\"inputs\":{},\"trig\":{},\"notes\":{}}}", jlist(&gs), jlist(&em.vars.iter().map(|s| jstr(s)).collect::<Vec<_>>()), jlist(&trig), jlist(&e.notes.iter().map(|s| jstr(s)).collect::<Vec<_>>())).unwrap();
-        (o, goals.len())
+        (outs, ngoals)
     })
 }
 
@@ -152,9 +152,9 @@ pub fn explore(sc: &Scenario) -> (Vec<String>, Stats) {
             }
         };
         st.decisions += with(|e| e.path.len());
-        let (line, ng) = emit_path(sc, st.paths - 1, status, &msg);
+        let (lines, ng) = emit_path(sc, st.paths - 1, status, &msg);
         st.goals += ng;
-        out.push(line);
+        out.extend(lines);
         // backtrack: flip the last `true` decision
         let done = with(|e| {
             // decisions beyond pos were not consumed on this path (cannot happen: trail grows only at pos)
